@@ -60,7 +60,8 @@ var (
 	reg   = map[string]*Rec{}
 )
 
-const maxHashes = 4_000_000
+// beyond this many distinct hashes per shard the count is a lower bound
+const maxHashes = 1_500_000
 
 // Get returns the collector of a property (one per process and property).
 func Get(prop string) *Rec {
